@@ -27,8 +27,9 @@ def production(ctx, quick, rnd):
         b = n.bit_length()
         ks = [0, 1, 2, 3, n - 1, n, n + 1, 2 * n - 1, 2 * n, 2 * n + 1, 3 * n + 5, -1, -n, -2 * n - 1, 2 ** (b - 1), 2 ** b - 1,
               int("55" * (b // 8), 16), int("aa" * (b // 8), 16), rnd.randrange(4 * n)]
+        ks += [(2 ** m - 1) // 3 for m in (47, 48, 53, 54, 64, b - 1, b)] + [(2 ** m - 1) // 3 * 2 for m in (47, 54, b)]   # 0x5555.. / 0xaaaa..
         if quick:
-            ks = [ks[i] for i in (0, 1, 4, 5, 6, 8, 9, 11, 15, 18)]
+            ks = [ks[i] for i in (0, 1, 4, 5, 6, 8, 9, 11, 15, 16, 17, 18)] + ks[19:]
         gx, gy = G.x(), G.y()
         fresh = lambda gen, z=1, order=n: ec.PointJacobi(cfp, gx * z * z % p, gy * z * z * z % p, z, order, gen)  # noqa
         Q5 = (fresh(False) * 5).scale()
@@ -38,8 +39,13 @@ def production(ctx, quick, rnd):
             paths["naf"] = fresh(False) * k
             paths["naf-unscaled-noorder"] = fresh(False, 7, None) * k
             paths["fresh-generator"] = k * fresh(True, 3)
-            if abs(k) < 2 ** 20 or not quick:
-                paths["legacy"] = ec.Point(cfp, gx, gy, n) * k
+            paths["legacy"] = ec.Point(cfp, gx, gy, n) * k
+            paths["legacy-noorder"] = ec.Point(cfp, gx, gy) * (k % n)
+            # a negated generator (after the generator's table exists) and a negated plain point
+            negG = -G
+            paths["neg-generator"] = -(negG * k) if (negG * k) != ec.INFINITY else negG * k
+            negP = -fresh(False, 3)
+            paths["neg-plain"] = -(negP * k) if (negP * k) != ec.INFINITY else negP * k
             a_ = k // 3
             paths["mul_add-split"] = fresh(False).mul_add(a_, fresh(False, 2), k - a_)
             paths["mul_add-gen"] = G.mul_add(k - 1, fresh(False), 1)
